@@ -1,6 +1,7 @@
 pub mod diffref;
 pub mod api;
 pub mod c01;
+pub mod c03;
 
 use crate::ast::Node;
 use crate::core::*;
@@ -16,6 +17,7 @@ pub fn run(ctx: &RunCtx) -> Outcome {
         "C01" => c01::run(ctx, false),
         "C02" => c01::run(ctx, true),
         "C15" => c01::run_cond(ctx),
+        "C03" => c03::run(ctx),
         "C05" => api::run_c05(ctx),
         "C08" => api::run_c08(ctx),
         "C09" => api::run_c09(ctx),
@@ -34,6 +36,7 @@ pub fn replay(ctx: &RunCtx, case: &Value) -> Result<Option<Fail>, String> {
             let omit = case.get("extra").and_then(|e| e.get("omit_empty_no")).and_then(|b| b.as_bool()).unwrap_or(false);
             replay_pat(ctx, &diffref::DiffRef { omit_empty_no: omit, ..c01::prop_cond() }, case)
         }
+        "C03" => replay_pat(ctx, &c03::Inject, case),
         "C05" => replay_pat(ctx, &api::Safety, case),
         "C08" => replay_pat(ctx, &api::IterModel, case),
         "C09" => replay_pat(ctx, &api::Coherence, case),
